@@ -2,6 +2,11 @@ HOOK_COMMITS = ["9fc801b"]
 FIX_COMMITS = ["ff3b5f3", "ffa19d7", "9d7c7c0", "b2f9896"]
 NOT_APPLICABLE = {}
 TEXT = {
+    "C13": {
+        "level": "Kernel-checked over any commutative additive monoid: merge is commutative and associative including error propagation, the zero vector is its identity, aggregate is invariant under every permutation of the shares (aggregate_perm), any partition into batches merged left to right equals the single pass (batching_invariant), every binary merge tree equals the pass over its leaves (tree_eq_pass), and a length or kind mismatch is refused (mismatch_refused, kind_mismatch_refused). The model functions are compared with AggregateShare/Poplar1FieldVec merge and accumulate of the real code on random multisets, partitions and trees; the oracle also checks that a refused merge leaves the accumulator byte-identical.",
+        "note": "Trusted: Lean kernel, propext/Classical.choice/Quot.sound, the 40-line model of merge_vector/aggregate (validated by the correspondence), that the Rust field types are commutative monoids under + (C09).",
+        "technique": "Lean 4 proof (commutative-monoid fold) + differential correspondence",
+    },
     "C20": {
         "level": "Kernel-checked: is_agg_param_valid (model) holds exactly when no parameter was used before or the level strictly exceeds the most recent level and every candidate extends a most recent candidate (valid_iff, all histories, all well-formed parameters); admissible histories are exactly chains of strict refinements (admissible_iff, induction over histories); try_from_prefixes accepts exactly non-empty lists of equal-length (1..65536 bits), strictly increasing prefixes, fewer than 2^32 (ctor_accepts_iff); every byte string the decoder accepts encodes a parameter the constructor accepts (decoder_accepts_ctor); Prio3/Prio2 accept only the first use. The model is compared with the real code exhaustively for small bit lengths.",
         "note": "Trusted: Lean kernel, propext/Classical.choice/Quot.sound, the hand-written model of try_from_prefixes / is_agg_param_valid (validated by the exhaustive correspondence), bitvec's ordering.",
